@@ -5,16 +5,16 @@ for name in "$@"; do
   id=${name%-*}; wt=/tmp/mut/$id; d=/verif/seeded/$name
   cd $wt || exit 2
   git checkout -q -- . ; cmake --build build -j8 >/dev/null 2>&1
-  if [ ! -f /tmp/mut/baseline-ctest.txt ]; then
-    ctest --test-dir build -j8 --timeout 900 2>&1 | grep -E "tests passed|Failed|\*\*\*" > /tmp/mut/baseline-ctest.txt
+  if [ ! -f /tmp/mut/baseline-$id-ctest.txt ]; then
+    ctest --test-dir build -j8 --timeout 900 >/dev/null 2>&1; grep -a -h "FAILED$\|^Failures:\|^Passes:\|^Total tests:" build/*/qtest.log | sort > /tmp/mut/baseline-$id-ctest.txt
   fi
   (cd $d && bash ./demo.sh $wt/build >/tmp/mut/$name-demo-clean.log 2>&1); clean=$?
   git apply $d/patch.diff || { echo "$name: patch does not apply"; continue; }
   cmake --build build -j8 >/dev/null 2>&1 || { echo "$name: does not compile"; git checkout -q -- .; continue; }
   (cd $d && bash ./demo.sh $wt/build >/tmp/mut/$name-demo-patched.log 2>&1); patched=$?
-  ctest --test-dir build -j8 --timeout 900 2>&1 | grep -E "tests passed|Failed|\*\*\*" > /tmp/mut/$name-ctest.txt
+  ctest --test-dir build -j8 --timeout 900 >/dev/null 2>&1; grep -a -h "FAILED$\|^Failures:\|^Passes:\|^Total tests:" build/*/qtest.log | sort > /tmp/mut/$name-ctest.txt
   # the qpdf qtest summary line counts
-  suite=$(diff -q /tmp/mut/baseline-ctest.txt /tmp/mut/$name-ctest.txt >/dev/null && echo same-as-baseline || echo DIFFERS)
+  suite=$(diff -q /tmp/mut/baseline-$id-ctest.txt /tmp/mut/$name-ctest.txt >/dev/null && echo same-as-baseline || echo DIFFERS)
   git checkout -q -- . ; cmake --build build -j8 >/dev/null 2>&1
   echo "$name: demo_clean_exit=$clean demo_patched_exit=$patched suite=$suite"
 done
